@@ -495,7 +495,8 @@ func Build(r drv.Rand, s BuildSpec) (Token, Middle) {
 		e2 := SigEntry{Alg: "none", Kid: kid, Prot: prot, Sig: SigVal{Junk: true}}
 		sig := ""
 		if r.Bool() {
-			sig = sg.s // keep the old signature bytes
+			sig = sg.s // keep the old signature bytes: still the value made over the old header
+			e2.Sig = e.Sig
 		}
 		tok = compact(b64.EncodeToString([]byte(prot)), sg.p, sig, e2, payload)
 	case "sig_flip":
